@@ -1028,6 +1028,12 @@ func kahnsAlgorithmUsingAuthEvents(events []*stateResV2ConflictedPowerLevel) []*
 	inDegree := make(map[string]int, len(events))
 
 	for _, event := range events {
+		// The same event may be listed more than once (e.g. a power event that is
+		// both conflicted and in the auth difference). Count it only once, or its
+		// auth events never reach an in-degree of zero and fall out of the ordering.
+		if _, ok := eventMap[event.eventID]; ok {
+			continue
+		}
 		// For each event that we have been given, add it to the event map so that
 		// we can easily refer back to it by event ID later.
 		eventMap[event.eventID] = event
@@ -1114,6 +1120,12 @@ func kahnsAlgorithmUsingPrevEvents(events []*stateResV2ConflictedOther) []*state
 	inDegree := make(map[string]int, len(events))
 
 	for _, event := range events {
+		// The same event may be listed more than once (e.g. a power event that is
+		// both conflicted and in the auth difference). Count it only once, or its
+		// auth events never reach an in-degree of zero and fall out of the ordering.
+		if _, ok := eventMap[event.eventID]; ok {
+			continue
+		}
 		// For each event that we have been given, add it to the event map so that
 		// we can easily refer back to it by event ID later.
 		eventMap[event.eventID] = event
